@@ -8,13 +8,12 @@ is identical on the big database and on the empty twin (constant, not merely bou
 Reads that stop early (get / contains hitting the first row of a multi-buffer file) are interleaved so that the file position is anywhere.
 """
 import csv
-import io
 import os
 import shutil
 
 from hypothesis import strategies as st
 
-from .. import core, gen, iolayer, model
+from .. import core, csvref, gen, iolayer, model
 from ..core import Violation
 
 ID = "C16"
@@ -38,20 +37,6 @@ def write_rows(path, n):
         w = csv.writer(f)
         for i in range(n):
             w.writerow([(t0 + timedelta(seconds=i)).replace(tzinfo=None).isoformat(), "m1", "_tag_i", str(i), "_tag_pad", "p" * 40, "_field_v", str(float(i))])
-
-
-def encoded(points, compact):
-    buf = io.StringIO(newline="")
-    w = csv.writer(buf)
-    tp, fp = ("t_", "f_") if compact else ("_tag_", "_field_")
-    for p in points:
-        row = [p["time"].replace(tzinfo=None).isoformat(), p["measurement"]]
-        for k, v in p["tags"].items():
-            row += [tp + k, "_none" if v is None else v]
-        for k, v in p["fields"].items():
-            row += [fp + k, "_none" if v is None else str(float(v))]
-        w.writerow(row)
-    return buf.getvalue().encode("utf-8")
 
 
 @st.composite
@@ -91,7 +76,7 @@ def run_case(case, ctx, acc):
             with iolayer.installed(w):
                 flush = case.get("flush", True)
                 db = TinyFlux(paths[name], auto_index=case["auto_index"], flush_on_insert=flush)
-                appended = b""
+                inserted = []
                 initial = w.disk()
                 try:
                     latest = gen.T0 + timedelta(days=500)
@@ -121,8 +106,8 @@ def run_case(case, ctx, acc):
                             after = w.disk()
                             ev = w.events[e0:]
                             acc.ev()
-                            exp_bytes = encoded([dict(p, time=model.norm_time(p["time"])) for p in pts], compact)
-                            appended += exp_bytes
+                            exp_pts = [dict(p, time=model.norm_time(p["time"])) for p in pts]
+                            inserted.extend(exp_pts)
                             if not flush:
                                 # rows may still sit in the write buffer: the byte-level oracle is applied to the whole file after close()
                                 bad = [e for e in ev if e[0] in FORBIDDEN or e[0].startswith("open") or e[0].startswith("copy")]
@@ -139,11 +124,18 @@ def run_case(case, ctx, acc):
                             bad = [e for e in ev if e[0] in FORBIDDEN or e[0].startswith("open") or e[0].startswith("copy")]
                             if bad:
                                 raise Violation("reads-or-rewrites", case, "[%s n=%d] step %d %s performed %s" % (name, case["n"], si, k, bad[:6]))
-                            if after[len(before):] != exp_bytes:
-                                raise Violation("appended-bytes", case, "[%s n=%d] step %d %s appended %r, the encoded rows are %r" % (name, case["n"], si, k, after[len(before):][:200], exp_bytes[:200]))
+                            # the appended bytes must be exactly the inserted rows (decoded by the independent reader, so the
+                            # check does not pin the number formatting), and nothing else may have been written
+                            tail = after[len(before):]
+                            try:
+                                dec = csvref.decode(tail)
+                            except Exception as e:
+                                raise Violation("appended-bytes", case, "[%s n=%d] step %d %s appended bytes that do not decode as rows: %r (%r)" % (name, case["n"], si, k, tail[:200], e))
+                            if dec != exp_pts:
+                                raise Violation("appended-bytes", case, "[%s n=%d] step %d %s appended rows %s, inserted points are %s" % (name, case["n"], si, k, dec[:3], exp_pts[:3]))
                             written = "".join(t for (_i, _r, t) in w.written[w0:])
-                            if len(written.encode("utf-8")) != len(exp_bytes):
-                                raise Violation("written-bytes", case, "[%s n=%d] step %d %s wrote %d bytes for rows of %d bytes" % (name, case["n"], si, k, len(written.encode("utf-8")), len(exp_bytes)))
+                            if len(written.encode("utf-8")) != len(tail):
+                                raise Violation("written-bytes", case, "[%s n=%d] step %d %s wrote %d bytes, the file grew by %d" % (name, case["n"], si, k, len(written.encode("utf-8")), len(tail)))
                             sigs.setdefault(si, {})[name] = ev
                             if name == "big" and case["n"] >= 100 and (early or ooo):
                                 info["nontrivial"] = True
@@ -168,9 +160,15 @@ def run_case(case, ctx, acc):
                 finally:
                     db.close()
                 final = w.disk()
-                if final != initial + appended:
-                    n_common = next((i for i, (x, y) in enumerate(zip(final, initial + appended)) if x != y), min(len(final), len(initial) + len(appended)))
-                    raise Violation("not-append-only", case, "[%s n=%d flush_on_insert=%s] after close() the file (%d bytes) is not the initial content (%d bytes) followed by the encoded inserted rows (%d bytes); first difference at offset %d" % (name, case["n"], flush, len(final), len(initial), len(appended), n_common))
+                ok = final.startswith(initial)
+                if ok:
+                    try:
+                        ok = csvref.decode(final[len(initial):]) == inserted
+                    except Exception:
+                        ok = False
+                if not ok:
+                    n_common = next((i for i, (x, y) in enumerate(zip(final, initial)) if x != y), min(len(final), len(initial)))
+                    raise Violation("not-append-only", case, "[%s n=%d flush_on_insert=%s] after close() the file (%d bytes) is not the initial content (%d bytes) followed by exactly the %d inserted rows; common prefix with the initial content: %d bytes" % (name, case["n"], flush, len(final), len(initial), len(inserted), n_common))
                 acc.ev()
             if w.blind_spots:
                 raise core.HarnessError("I/O that bypassed the proxies: %r" % (w.blind_spots[:3],))
